@@ -494,6 +494,18 @@ func (ctrler *GovCtrler) Close() xerrors.XError {
 	return nil
 }
 
+// ParamsAt returns the governance parameters committed at the given height.
+func (ctrler *GovCtrler) ParamsAt(height int64) (*ctrlertypes.GovParams, xerrors.XError) {
+	ctrler.mtx.RLock()
+	defer ctrler.mtx.RUnlock()
+
+	atledger, xerr := ctrler.paramsLedger.ImmutableLedgerAt(height, 1)
+	if xerr != nil {
+		return nil, xerr
+	}
+	return atledger.Read(ledger.ToLedgerKey(abytes.ZeroBytes(32)))
+}
+
 func (ctrler *GovCtrler) GetGovParams() ctrlertypes.GovParams {
 	ctrler.mtx.RLock()
 	defer ctrler.mtx.RUnlock()
